@@ -40,11 +40,27 @@
 (*             overlaps()   (same kernels on the same data; coo matrix)    *)
 (*             overlaps_matrix.__call__ (check/realloc, coverlaps, result) *)
 (*   "cd"    compress_duplicates alone on every sequence of label pairs    *)
+(*   "hist"  ONE overlaps_linear and ONE overlaps_matrix object called     *)
+(*           HistLen times with DIFFERENT frame pairs (action Hist_Next    *)
+(*           picks the next pair: any pair, or - chained - the previous    *)
+(*           second frame with a new one, which is what                    *)
+(*           sinograms/properties.py:132-160 pairrow does with the         *)
+(*           consecutive frames of a scan, and pairscans :163-195 with     *)
+(*           arbitrary pairs).  The objects' work arrays ki kj ect tj tmp  *)
+(*           matmem results live in `obj` and keep what earlier calls left *)
+(*           (np.empty / realloc(): Poison); every call works on numpy     *)
+(*           views of them (View / Overlay), tmp at its full extent        *)
+(*           nnzmax+1.  LinExact / MatExact / LinEqMat / SoExact / CdExact *)
+(*           / InBounds are checked at the end of EVERY call: the answers  *)
+(*           of a re-used object do not depend on its history.             *)
+(*           hist = the records of the finished calls (emitted).           *)
 (*                                                                         *)
-(* Variables: prog, pc, inp (frames / inputs, immutable), S (kernel        *)
-(*   scalars), k1 k2 (hit lists), ai aj (i, j of compress_duplicates =     *)
-(*   gathered labels r, c), oi oj tmp, mat results, obj (nnzmax / npkmax   *)
-(*   of the caching objects), out (results per route), raised, acc.        *)
+(* Variables: prog, pc, inp (frames / inputs of the current call), S       *)
+(*   (kernel scalars), k1 k2 (hit lists), ai aj (i, j of                   *)
+(*   compress_duplicates = gathered labels r, c), oi oj tmp, mat results,  *)
+(*   obj (nnzmax / npkmax of the caching objects; program "hist": their    *)
+(*   buffers, the call counter and the chain flag), out (results per       *)
+(*   route), raised, acc, hist.                                            *)
 (*                                                                         *)
 (* Invariants:                                                             *)
 (*   InBounds   every index within the declared extent                     *)
@@ -73,11 +89,20 @@
 (*   _tcd5 cd: every pair sequence of length <= 5 over 3 labels            *)
 (*   _tcd6 cd: length <= 6 over 2 labels, nt = vmax+1 and vmax+2           *)
 (*   _asis FIXED = FALSE: TLC must report OvlTotal violated                *)
+(*   _qh   histories: EVERY two calls on 1x2 with <= 2 labels, free and    *)
+(*         chained, objects starting at nnzmax = npkmax = 1 (grow, then    *)
+(*         re-use)          _th2 the same with nlabel slack 0 / 1          *)
+(*   _th3  histories: every three calls on 1x2, <= 2 labels                *)
+(*   _hsim (_hsim_t: larger sample) histories of 6 calls on 1x3 and 2x2,   *)
+(*         <= 3 labels, nlabel slack                                       *)
+(*         0 / 2, sampled: HistPickInit / HistPickNext frames per choice   *)
+(*         drawn with RandomSubset (TLC -seed = VERIF_SEED + 14); all      *)
+(*         invariants are still checked on every state of the sample       *)
 (* The product "all 2x3 frames with 3 labels" (7.6e6 pairs) is covered by  *)
 (* decomposition: _t23 (every coordinate pair on 2x3) x _tcd5/_tcd6 (every *)
 (* gathered label sequence) and the composition on the smaller grids.      *)
 (***************************************************************************)
-EXTENDS Integers, Sequences, FiniteSets, TLC, Json
+EXTENDS Integers, Sequences, FiniteSets, TLC, Json, Randomization
 
 CONSTANTS
     PipeGrids,      \* set of grid codes 10*ns+nf for program "pipe" ({} disables)
@@ -89,11 +114,19 @@ CONSTANTS
     CdLen,          \* program "cd": pair sequences of length 1..CdLen (0 disables)
     CdLab,          \* labels 1..CdLab
     CdSlack,        \* nt = vmax + 1 + slack, slack \in CdSlack
-    FIXED           \* TRUE: overlaps() returns an empty matrix when no pixel is shared
+    FIXED,          \* TRUE: overlaps() returns an empty matrix when no pixel is shared
+    HistGrids,      \* grid codes for program "hist" ({} disables): ONE overlaps_linear and ONE overlaps_matrix
+                    \* object called HistLen times with different frame pairs, work arrays kept
+    HistLen,        \* calls per object (>= 1)
+    Chains,         \* subset of BOOLEAN; TRUE: the first frame of a call is the second frame of the call
+                    \* before (what sinograms.properties.pairrow does with consecutive frames of a scan)
+    HistPickInit,   \* 0: every frame is tried for the first call; k > 0: k random frames for each of f1, f2
+    HistPickNext    \* 0: every frame pair is tried for a later call; k > 0: k random frames for each of f1, f2
+                    \* (sampled long histories; the random generator is TLC's, seeded with -seed)
 
-VARIABLES prog, pc, inp, S, k1, k2, ai, aj, oi, oj, tmp, mat, results, obj, out, raised, acc
+VARIABLES prog, pc, inp, S, k1, k2, ai, aj, oi, oj, tmp, mat, results, obj, out, raised, acc, hist
 
-vars == <<prog, pc, inp, S, k1, k2, ai, aj, oi, oj, tmp, mat, results, obj, out, raised, acc>>
+vars == <<prog, pc, inp, S, k1, k2, ai, aj, oi, oj, tmp, mat, results, obj, out, raised, acc, hist>>
 
 Poison == -1
 None == <<>>
@@ -109,6 +142,10 @@ AsSeq(a) == [x \in 1..Size(a) |-> a[x - 1]]
 Max2(a, b) == IF a > b THEN a ELSE b
 MaxOf(a) == CHOOSE m \in {a[x] : x \in DOMAIN a} : \A x \in DOMAIN a : a[x] <= m
 Before(r1, c1, r2, c2) == r1 < r2 \/ (r1 = r2 /\ c1 < c2)
+\* numpy views of the caching objects' buffers: buf[:n], and writing a view back into its buffer
+View(buf, n) == [x \in 0..(n - 1) |-> buf[x]]
+Overlay(buf, v) == [x \in DOMAIN buf |-> IF x \in DOMAIN v THEN v[x] ELSE buf[x]]
+Hist == prog = "hist"
 
 S0 == [p1 |-> 0, p2 |-> 0, nhit |-> 0, k |-> 0, vmax |-> 0, c |-> 0, t |-> 0, ik |-> 0, jk |-> 0,
        n |-> 0, nt |-> 0, i1 |-> 0, i2 |-> 0, npk |-> 0, ret |-> Poison]
@@ -126,6 +163,9 @@ Frame(sh, lab, extra) ==
         lab |-> [x \in 0..(m - 1) |-> lab[s[x + 1]]],
         n   |-> MaxOf(lab) + extra]
 
+\* a frame as it is emitted (JSON, 1-based sequences)
+FrameJson(f) == [nnz |-> f.nnz, row |-> AsSeq(f.row), col |-> AsSeq(f.col), lab |-> AsSeq(f.lab), n |-> f.n]
+
 Used(lab) == {lab[p] : p \in DOMAIN lab} \ {0}
 GoodLab(lab) == /\ Used(lab) # {}
                 /\ Surj => Used(lab) = 1..MaxOf(lab)
@@ -141,7 +181,7 @@ InitPipe ==
         /\ S = S0 /\ k1 = None /\ k2 = None /\ ai = None /\ aj = None /\ oi = None /\ oj = None
         /\ tmp = None /\ mat = None /\ results = None
         /\ obj = [nnzmax |-> NnzMax0, npkmax |-> NpkMax0, realloc_lin |-> FALSE, realloc_mat |-> FALSE]
-        /\ out = [x \in {} |-> 0] /\ raised = FALSE /\ acc = {}
+        /\ out = [x \in {} |-> 0] /\ raised = FALSE /\ acc = {} /\ hist = <<>>
 
 InitCd ==
     /\ CdLen > 0
@@ -154,9 +194,30 @@ InitCd ==
         /\ ai = i /\ aj = j /\ oi = Arr(n, Poison) /\ oj = Arr(n, Poison)
         /\ tmp = Arr(vm + 1 + slack, Poison)
         /\ k1 = None /\ k2 = None /\ mat = None /\ results = None
-        /\ obj = [x \in {} |-> 0] /\ out = [x \in {} |-> 0] /\ raised = FALSE /\ acc = {}
+        /\ obj = [x \in {} |-> 0] /\ out = [x \in {} |-> 0] /\ raised = FALSE /\ acc = {} /\ hist = <<>>
 
-Init == InitPipe \/ InitCd
+LabSets(sh) == [0..(sh[1] * sh[2] - 1) -> 0..NLab]
+GoodLabs(sh) == {l \in LabSets(sh) : GoodLab(l)}
+Pick(k, T) == IF k = 0 \/ k >= Cardinality(T) THEN T ELSE RandomSubset(k, T)
+
+\* program "hist": the objects are created once (np.empty buffers: Poison) and then called HistLen times
+InitHist ==
+    \E g \in HistGrids : LET sh == Sh(g) IN
+    \E l1 \in Pick(HistPickInit, GoodLabs(sh)) : \E l2 \in Pick(HistPickInit, GoodLabs(sh)) :
+    \E e1 \in NExtra : \E e2 \in NExtra : \E ch \in Chains :
+        /\ prog = "hist" /\ pc = "lin_chk"
+        /\ inp = [ns |-> sh[1], nf |-> sh[2], lab1 |-> l1, lab2 |-> l2,
+                  f1 |-> Frame(sh, l1, e1), f2 |-> Frame(sh, l2, e2)]
+        /\ S = S0 /\ k1 = None /\ k2 = None /\ ai = None /\ aj = None /\ oi = None /\ oj = None
+        /\ tmp = None /\ mat = None /\ results = None
+        /\ obj = [nnzmax |-> NnzMax0, npkmax |-> NpkMax0, realloc_lin |-> FALSE, realloc_mat |-> FALSE,
+                  ki |-> Arr(NnzMax0, Poison), kj |-> Arr(NnzMax0, Poison), ect |-> Arr(NnzMax0, Poison),
+                  tj |-> Arr(NnzMax0, Poison), tmp |-> Arr(NnzMax0 + 1, Poison),
+                  matmem |-> Arr(NpkMax0 * NpkMax0, Poison), results |-> Arr(3 * NpkMax0 * NpkMax0, Poison),
+                  chain |-> ch, ncall |-> 1]
+        /\ out = [x \in {} |-> 0] /\ raised = FALSE /\ acc = {} /\ hist = <<>>
+
+Init == InitPipe \/ InitCd \/ InitHist
 
 F1 == inp.f1
 F2 == inp.f2
@@ -166,13 +227,21 @@ F2 == inp.f2
 
 Lin_Check ==
     /\ pc = "lin_chk"
-    /\ LET nnz == Max2(Max2(F1.nnz, F2.nnz), Max2(F1.n, F2.n)) IN
-        obj' = IF nnz > obj.nnzmax THEN [obj EXCEPT !.nnzmax = nnz, !.realloc_lin = TRUE] ELSE obj
-    \* ki[:len(row1)], kj[:len(row2)] : whatever the buffers held
-    /\ k1' = Arr(F1.nnz, Poison) /\ k2' = Arr(F2.nnz, Poison)
+    /\ LET nnz == Max2(Max2(F1.nnz, F2.nnz), Max2(F1.n, F2.n))
+           grow == nnz > obj.nnzmax
+           o1 == IF grow THEN [obj EXCEPT !.nnzmax = nnz, !.realloc_lin = TRUE] ELSE obj
+           \* realloc(): five fresh np.empty arrays; otherwise the arrays keep what earlier calls left
+           o2 == IF Hist /\ grow
+                 THEN [o1 EXCEPT !.ki = Arr(nnz, Poison), !.kj = Arr(nnz, Poison), !.ect = Arr(nnz, Poison),
+                                 !.tj = Arr(nnz, Poison), !.tmp = Arr(nnz + 1, Poison)]
+                 ELSE o1
+       IN /\ obj' = o2
+          \* ki[:len(row1)], kj[:len(row2)] : whatever the buffers held (first call: Poison)
+          /\ k1' = IF Hist THEN View(o2.ki, F1.nnz) ELSE Arr(F1.nnz, Poison)
+          /\ k2' = IF Hist THEN View(o2.kj, F2.nnz) ELSE Arr(F2.nnz, Poison)
     /\ S' = [S0 EXCEPT !.p1 = 0, !.p2 = 0, !.nhit = 0]
     /\ pc' = "so_loop" /\ acc' = {}
-    /\ UNCHANGED <<prog, inp, ai, aj, oi, oj, tmp, mat, results, out, raised>>
+    /\ UNCHANGED <<prog, inp, ai, aj, oi, oj, tmp, mat, results, out, raised, hist>>
 
 (* sparse_overlaps, sparse_image.c:684-724 *)
 SoAcc(withj) == {Acc("i1", S.p1, F1.nnz), Acc("i2", S.p2, F2.nnz)} \cup
@@ -183,25 +252,25 @@ SO_RowAhead1 ==     \* i1[p1] > i2[p2] : p2++
     /\ pc = "so_loop" /\ SoMore
     /\ Rd(F1.row, S.p1) > Rd(F2.row, S.p2)
     /\ S' = [S EXCEPT !.p2 = S.p2 + 1] /\ acc' = SoAcc(FALSE)
-    /\ UNCHANGED <<prog, pc, inp, k1, k2, ai, aj, oi, oj, tmp, mat, results, obj, out, raised>>
+    /\ UNCHANGED <<prog, pc, inp, k1, k2, ai, aj, oi, oj, tmp, mat, results, obj, out, raised, hist>>
 
 SO_RowAhead2 ==     \* i1[p1] < i2[p2] : p1++
     /\ pc = "so_loop" /\ SoMore
     /\ Rd(F1.row, S.p1) < Rd(F2.row, S.p2)
     /\ S' = [S EXCEPT !.p1 = S.p1 + 1] /\ acc' = SoAcc(FALSE)
-    /\ UNCHANGED <<prog, pc, inp, k1, k2, ai, aj, oi, oj, tmp, mat, results, obj, out, raised>>
+    /\ UNCHANGED <<prog, pc, inp, k1, k2, ai, aj, oi, oj, tmp, mat, results, obj, out, raised, hist>>
 
 SO_ColAhead1 ==     \* same row, j1[p1] > j2[p2] : p2++
     /\ pc = "so_loop" /\ SoMore
     /\ Rd(F1.row, S.p1) = Rd(F2.row, S.p2) /\ Rd(F1.col, S.p1) > Rd(F2.col, S.p2)
     /\ S' = [S EXCEPT !.p2 = S.p2 + 1] /\ acc' = SoAcc(TRUE)
-    /\ UNCHANGED <<prog, pc, inp, k1, k2, ai, aj, oi, oj, tmp, mat, results, obj, out, raised>>
+    /\ UNCHANGED <<prog, pc, inp, k1, k2, ai, aj, oi, oj, tmp, mat, results, obj, out, raised, hist>>
 
 SO_ColAhead2 ==     \* same row, j1[p1] < j2[p2] : p1++
     /\ pc = "so_loop" /\ SoMore
     /\ Rd(F1.row, S.p1) = Rd(F2.row, S.p2) /\ Rd(F1.col, S.p1) < Rd(F2.col, S.p2)
     /\ S' = [S EXCEPT !.p1 = S.p1 + 1] /\ acc' = SoAcc(TRUE)
-    /\ UNCHANGED <<prog, pc, inp, k1, k2, ai, aj, oi, oj, tmp, mat, results, obj, out, raised>>
+    /\ UNCHANGED <<prog, pc, inp, k1, k2, ai, aj, oi, oj, tmp, mat, results, obj, out, raised, hist>>
 
 SO_Hit ==           \* same pixel
     /\ pc = "so_loop" /\ SoMore
@@ -209,33 +278,33 @@ SO_Hit ==           \* same pixel
     /\ k1' = Wr(k1, S.nhit, S.p1) /\ k2' = Wr(k2, S.nhit, S.p2)
     /\ S' = [S EXCEPT !.p1 = S.p1 + 1, !.p2 = S.p2 + 1, !.nhit = S.nhit + 1]
     /\ acc' = SoAcc(TRUE) \cup {Acc("k1", S.nhit, F1.nnz), Acc("k2", S.nhit, F2.nnz)}
-    /\ UNCHANGED <<prog, pc, inp, ai, aj, oi, oj, tmp, mat, results, obj, out, raised>>
+    /\ UNCHANGED <<prog, pc, inp, ai, aj, oi, oj, tmp, mat, results, obj, out, raised, hist>>
 
 SO_EndMerge ==      \* for (p1 = nhit; ...
     /\ pc = "so_loop" /\ ~SoMore
     /\ S' = [S EXCEPT !.p1 = S.nhit] /\ pc' = "so_fill1" /\ acc' = {}
-    /\ UNCHANGED <<prog, inp, k1, k2, ai, aj, oi, oj, tmp, mat, results, obj, out, raised>>
+    /\ UNCHANGED <<prog, inp, k1, k2, ai, aj, oi, oj, tmp, mat, results, obj, out, raised, hist>>
 
 SO_Fill1 ==
     /\ pc = "so_fill1" /\ S.p1 < F1.nnz
     /\ k1' = Wr(k1, S.p1, 0) /\ S' = [S EXCEPT !.p1 = S.p1 + 1] /\ acc' = {Acc("k1", S.p1, F1.nnz)}
-    /\ UNCHANGED <<prog, pc, inp, k2, ai, aj, oi, oj, tmp, mat, results, obj, out, raised>>
+    /\ UNCHANGED <<prog, pc, inp, k2, ai, aj, oi, oj, tmp, mat, results, obj, out, raised, hist>>
 
 SO_Fill1End ==
     /\ pc = "so_fill1" /\ S.p1 >= F1.nnz
     /\ S' = [S EXCEPT !.p2 = S.nhit] /\ pc' = "so_fill2" /\ acc' = {}
-    /\ UNCHANGED <<prog, inp, k1, k2, ai, aj, oi, oj, tmp, mat, results, obj, out, raised>>
+    /\ UNCHANGED <<prog, inp, k1, k2, ai, aj, oi, oj, tmp, mat, results, obj, out, raised, hist>>
 
 SO_Fill2 ==
     /\ pc = "so_fill2" /\ S.p2 < F2.nnz
     /\ k2' = Wr(k2, S.p2, 0) /\ S' = [S EXCEPT !.p2 = S.p2 + 1] /\ acc' = {Acc("k2", S.p2, F2.nnz)}
-    /\ UNCHANGED <<prog, pc, inp, k1, ai, aj, oi, oj, tmp, mat, results, obj, out, raised>>
+    /\ UNCHANGED <<prog, pc, inp, k1, ai, aj, oi, oj, tmp, mat, results, obj, out, raised, hist>>
 
 SO_Return ==
     /\ pc = "so_fill2" /\ S.p2 >= F2.nnz
     /\ S' = [S0 EXCEPT !.ret = S.nhit, !.nhit = S.nhit] /\ pc' = "so_ret" /\ acc' = {}
     /\ out' = [so |-> [k1 |-> AsSeq(k1), k2 |-> AsSeq(k2), npx |-> S.nhit]]
-    /\ UNCHANGED <<prog, inp, k1, k2, ai, aj, oi, oj, tmp, mat, results, obj, raised>>
+    /\ UNCHANGED <<prog, inp, k1, k2, ai, aj, oi, oj, tmp, mat, results, obj, raised, hist>>
 
 \* sparseframe.py:496-497  npx == 0 -> return 0, None.   overlaps() has no such test: it goes on
 \* with zero-length arrays and the f2py wrapper of compress_duplicates raises ValueError.
@@ -245,28 +314,33 @@ Lin_NoOverlap ==
                       ovl |-> IF FIXED THEN [ok |-> TRUE, dense |-> Arr(F1.n * F2.n, 0)]
                                        ELSE [ok |-> FALSE, dense |-> <<>>]]
     /\ raised' = ~FIXED
+    /\ obj' = IF Hist THEN [obj EXCEPT !.ki = Overlay(obj.ki, k1), !.kj = Overlay(obj.kj, k2)] ELSE obj
     /\ pc' = "mat_chk" /\ acc' = {}
-    /\ UNCHANGED <<prog, inp, S, k1, k2, ai, aj, oi, oj, tmp, mat, results, obj>>
+    /\ UNCHANGED <<prog, inp, S, k1, k2, ai, aj, oi, oj, tmp, mat, results, hist>>
 
 \* sparseframe.py:498-500  r = labels1[ki[:npx]] ; c = labels2[kj[:npx]] ; then the call
 Lin_Gather ==
     /\ pc = "so_ret" /\ S.ret > 0
     /\ ai' = [x \in 0..(S.ret - 1) |-> Rd(F1.lab, k1[x])]
     /\ aj' = [x \in 0..(S.ret - 1) |-> Rd(F2.lab, k2[x])]
-    /\ oi' = Arr(S.ret, Poison) /\ oj' = Arr(S.ret, Poison)
-    /\ tmp' = Arr(Max2(F1.n, F2.n) + 1, Poison)
-    /\ S' = [S0 EXCEPT !.n = S.ret, !.nt = Max2(F1.n, F2.n) + 1, !.nhit = S.ret]
+    \* ect[:npx], tj[:npx], tmp: fresh arrays in overlaps(); in the object whatever earlier calls left,
+    \* with tmp at its full extent nnzmax + 1
+    /\ oi' = IF Hist THEN View(obj.ect, S.ret) ELSE Arr(S.ret, Poison)
+    /\ oj' = IF Hist THEN View(obj.tj, S.ret) ELSE Arr(S.ret, Poison)
+    /\ tmp' = IF Hist THEN obj.tmp ELSE Arr(Max2(F1.n, F2.n) + 1, Poison)
+    /\ obj' = IF Hist THEN [obj EXCEPT !.ki = Overlay(obj.ki, k1), !.kj = Overlay(obj.kj, k2)] ELSE obj
+    /\ S' = [S0 EXCEPT !.n = S.ret, !.nt = IF Hist THEN obj.nnzmax + 1 ELSE Max2(F1.n, F2.n) + 1, !.nhit = S.ret]
     /\ out' = out @@ [gather |-> [r |-> [x \in 1..S.ret |-> Rd(F1.lab, k1[x - 1])],
                                   c |-> [x \in 1..S.ret |-> Rd(F2.lab, k2[x - 1])]]]
     /\ pc' = "cd_start"
     /\ acc' = {Acc("labels1", k1[x], F1.nnz) : x \in 0..(S.ret - 1)} \cup
               {Acc("labels2", k2[x], F2.nnz) : x \in 0..(S.ret - 1)}
-    /\ UNCHANGED <<prog, inp, k1, k2, mat, results, obj, raised>>
+    /\ UNCHANGED <<prog, inp, k1, k2, mat, results, raised, hist>>
 
 -----------------------------------------------------------------------------
 (* compress_duplicates, sparse_image.c:744-818 ; i = ai, j = aj ; n = S.n, nt = S.nt *)
 
-CdUn == <<prog, inp, k1, k2, mat, results, obj, out, raised>>
+CdUn == <<prog, inp, k1, k2, mat, results, obj, out, raised, hist>>
 
 CD_Start ==         \* vmax = i[0]; k = 0
     /\ pc = "cd_start"
@@ -401,12 +475,14 @@ CdOut == [i |-> AsSeq(ai), j |-> AsSeq(aj), oi |-> AsSeq(oi), oj |-> AsSeq(oj), 
 Cd_Done ==          \* program "cd" ends here
     /\ pc = "cd_ret" /\ prog = "cd"
     /\ out' = [cd |-> CdOut] /\ pc' = "done" /\ acc' = {}
-    /\ UNCHANGED <<prog, inp, S, k1, k2, ai, aj, oi, oj, tmp, mat, results, obj, raised>>
+    /\ UNCHANGED <<prog, inp, S, k1, k2, ai, aj, oi, oj, tmp, mat, results, obj, raised, hist>>
 
 \* sparseframe.py:501-506  rcl[:,0] = r[:nedge] ...   and  sparseframe.py:571-577 (overlaps):
 \* coo_matrix((ect[:nedge], (row[:nedge]-1, col[:nedge]-1)), shape=(n1, n2))
 Lin_Result ==
-    /\ pc = "cd_ret" /\ prog = "pipe"
+    /\ pc = "cd_ret" /\ prog \in {"pipe", "hist"}
+    /\ obj' = IF Hist THEN [obj EXCEPT !.ect = Overlay(obj.ect, oi), !.tj = Overlay(obj.tj, oj), !.tmp = tmp]
+                      ELSE obj
     /\ LET ne == S.ret
            rows == [x \in 1..ne |-> <<ai[x - 1], aj[x - 1], oi[x - 1]>>]
            dm == [q \in 0..(F1.n * F2.n - 1) |->
@@ -418,7 +494,7 @@ Lin_Result ==
           /\ acc' = {Acc("ovl_row", rows[x][1] - 1, F1.n) : x \in 1..ne} \cup
                     {Acc("ovl_col", rows[x][2] - 1, F2.n) : x \in 1..ne}
     /\ pc' = "mat_chk"
-    /\ UNCHANGED <<prog, inp, S, k1, k2, ai, aj, oi, oj, tmp, mat, results, obj, raised>>
+    /\ UNCHANGED <<prog, inp, S, k1, k2, ai, aj, oi, oj, tmp, mat, results, raised, hist>>
 
 -----------------------------------------------------------------------------
 (* overlaps_matrix.__call__, sparseframe.py:529-545 *)
@@ -427,16 +503,22 @@ Mat_Check ==        \* asserts labels.max()-1 < n ; realloc ; mat = matmem[:n1*n
     /\ pc = "mat_chk"
     /\ MaxOf(F1.lab) - 1 < F1.n /\ MaxOf(F2.lab) - 1 < F2.n
     /\ LET mx == Max2(F1.n, F2.n)
-           npkmax == IF mx > obj.npkmax THEN mx ELSE obj.npkmax
-       IN /\ obj' = IF mx > obj.npkmax THEN [obj EXCEPT !.npkmax = mx, !.realloc_mat = TRUE] ELSE obj
-          /\ results' = Arr(3 * npkmax * npkmax, Poison)
-    /\ mat' = Arr(F1.n * F2.n, Poison)
+           grow == mx > obj.npkmax
+           npkmax == IF grow THEN mx ELSE obj.npkmax
+           o1 == IF grow THEN [obj EXCEPT !.npkmax = mx, !.realloc_mat = TRUE] ELSE obj
+           o2 == IF Hist /\ grow THEN [o1 EXCEPT !.matmem = Arr(mx * mx, Poison),
+                                                 !.results = Arr(3 * mx * mx, Poison)]
+                 ELSE o1
+       IN /\ obj' = o2
+          /\ results' = IF Hist THEN o2.results ELSE Arr(3 * npkmax * npkmax, Poison)
+          \* mat = self.matmem[:n1*n2]
+          /\ mat' = IF Hist THEN View(o2.matmem, F1.n * F2.n) ELSE Arr(F1.n * F2.n, Poison)
     /\ S' = [S0 EXCEPT !.i1 = 0]
     /\ pc' = "cov_zero" /\ acc' = {}
-    /\ UNCHANGED <<prog, inp, k1, k2, ai, aj, oi, oj, tmp, out, raised>>
+    /\ UNCHANGED <<prog, inp, k1, k2, ai, aj, oi, oj, tmp, out, raised, hist>>
 
 (* coverlaps, sparse_image.c:847-886 ; npk1 = F1.n, npk2 = F2.n *)
-CovUn == <<prog, inp, k1, k2, ai, aj, oi, oj, tmp, obj, out, raised>>
+CovUn == <<prog, inp, k1, k2, ai, aj, oi, oj, tmp, obj, out, raised, hist>>
 MatExt == F1.n * F2.n
 ResExt == Size(results)
 
@@ -501,13 +583,38 @@ COV_ScanZero ==
 \* return npk ; sparseframe.py:545  return nov, self.results[:nov*3].reshape((nov,3))
 Mat_Result ==
     /\ pc = "cov_scan" /\ S.i1 >= F1.n
-    /\ out' = out @@ [mat |-> [nov |-> S.npk,
-                               res |-> [x \in 1..S.npk |-> <<results[3 * (x - 1)], results[3 * (x - 1) + 1],
-                                                             results[3 * (x - 1) + 2]>>],
-                               matmem |-> AsSeq(mat), results |-> AsSeq(results)]]
+    /\ LET res == [x \in 1..S.npk |-> <<results[3 * (x - 1)], results[3 * (x - 1) + 1], results[3 * (x - 1) + 2]>>]
+       IN /\ out' = out @@ [mat |-> [nov |-> S.npk, res |-> res,
+                                      matmem |-> AsSeq(mat), results |-> AsSeq(results)]]
+          \* program "hist": the call is over; the record of the call goes to the history
+          /\ hist' = IF Hist
+                     THEN Append(hist, [ns |-> inp.ns, nf |-> inp.nf, f1 |-> FrameJson(F1), f2 |-> FrameJson(F2),
+                                        lin |-> out.lin, mat |-> [nov |-> S.npk, res |-> res],
+                                        nnzmax |-> obj.nnzmax, npkmax |-> obj.npkmax])
+                     ELSE hist
+    /\ obj' = IF Hist THEN [obj EXCEPT !.matmem = Overlay(obj.matmem, mat), !.results = results] ELSE obj
     /\ S' = [S0 EXCEPT !.ret = S.npk]
-    /\ pc' = "done" /\ acc' = {}
-    /\ UNCHANGED <<prog, inp, k1, k2, ai, aj, oi, oj, tmp, mat, results, obj, raised>>
+    /\ pc' = IF Hist /\ obj.ncall < HistLen THEN "next" ELSE "done"
+    /\ acc' = {}
+    /\ UNCHANGED <<prog, inp, k1, k2, ai, aj, oi, oj, tmp, mat, results, raised>>
+
+\* program "hist": the next call on the same two objects.  Any pair of frames (the objects do not know the
+\* image shape), or - chained - the previous second frame with a new one (consecutive frames of one scan).
+Hist_Next ==
+    /\ pc = "next"
+    /\ \E g \in (IF obj.chain THEN {10 * inp.ns + inp.nf} ELSE Pick(IF HistPickNext = 0 THEN 0 ELSE 1, HistGrids)) :
+       LET sh == Sh(g) IN
+       \E l1 \in (IF obj.chain THEN {inp.lab2} ELSE Pick(HistPickNext, GoodLabs(sh))) :
+       \E l2 \in Pick(HistPickNext, GoodLabs(sh)) :
+       \E e1 \in (IF obj.chain THEN {F2.n - MaxOf(inp.lab2)} ELSE Pick(HistPickNext, NExtra)) :
+       \E e2 \in Pick(HistPickNext, NExtra) :
+           /\ inp' = [ns |-> sh[1], nf |-> sh[2], lab1 |-> l1, lab2 |-> l2,
+                      f1 |-> Frame(sh, l1, e1), f2 |-> Frame(sh, l2, e2)]
+    /\ obj' = [obj EXCEPT !.ncall = obj.ncall + 1]
+    /\ S' = S0 /\ k1' = None /\ k2' = None /\ ai' = None /\ aj' = None /\ oi' = None /\ oj' = None
+    /\ tmp' = None /\ mat' = None /\ results' = None
+    /\ out' = [x \in {} |-> 0] /\ pc' = "lin_chk" /\ acc' = {}
+    /\ UNCHANGED <<prog, raised, hist>>
 
 -----------------------------------------------------------------------------
 Next ==
@@ -518,7 +625,7 @@ Next ==
     \/ CD_Cumsum \/ CD_CumsumEnd \/ CD_Scatter1 \/ CD_Scatter1End \/ CD_Scatter2
     \/ CD_RunInit \/ CD_RunSame \/ CD_RunNew \/ CD_Return \/ Cd_Done \/ Lin_Result
     \/ Mat_Check \/ COV_Zero \/ COV_ZeroEnd \/ COV_Hit \/ COV_Ahead1 \/ COV_Ahead2 \/ COV_MergeEnd
-    \/ COV_ScanHit \/ COV_ScanZero \/ Mat_Result
+    \/ COV_ScanHit \/ COV_ScanZero \/ Mat_Result \/ Hist_Next
 
 Spec == Init /\ [][Next]_vars
 
@@ -535,7 +642,7 @@ Common == {p \in Pix : inp.lab1[p] > 0 /\ inp.lab2[p] > 0}
 RowSet(rows) == {rows[x] : x \in DOMAIN rows}
 
 SoExact ==
-    (prog = "pipe" /\ pc = "so_ret") =>
+    (prog \in {"pipe", "hist"} /\ pc = "so_ret") =>
         /\ S.ret = Cardinality(Common)
         /\ \A h \in 0..(S.ret - 1) :
               /\ F1.row[k1[h]] = F2.row[k2[h]] /\ F1.col[k1[h]] = F2.col[k2[h]]
@@ -556,7 +663,10 @@ CdExact ==
                  /\ oi[x] = Cardinality({y \in DOMAIN I : I[y] = ai[x] /\ J[y] = aj[x]})
                  /\ x > 0 => Before(ai[x - 1], aj[x - 1], ai[x], aj[x])
 
-PipeDone == prog = "pipe" /\ pc = "done"
+\* a call is over: `out` holds its answers, `inp` its frames.  In program "hist" this is the end of EVERY
+\* call of the history, so LinExact / MatExact / LinEqMat say that the answers of a re-used object do not
+\* depend on what its work arrays held (each call is judged by its own definition).
+PipeDone == (prog = "pipe" /\ pc = "done") \/ (prog = "hist" /\ pc \in {"next", "done"})
 
 LinExact ==
     PipeDone =>
@@ -579,11 +689,12 @@ OvlExact ==
             Cardinality({p \in Pix : inp.lab1[p] = (q \div F2.n) + 1 /\ inp.lab2[p] = (q % F2.n) + 1})]
 
 \* ---- emission ----------------------------------------------------------------------------
-FrameJson(f) == [nnz |-> f.nnz, row |-> AsSeq(f.row), col |-> AsSeq(f.col), lab |-> AsSeq(f.lab), n |-> f.n]
 
 Case ==
     IF prog = "cd"
     THEN [prog |-> "cd", i |-> AsSeq(inp.i), j |-> AsSeq(inp.j), n |-> inp.n, nt |-> inp.nt, cd |-> out.cd]
+    ELSE IF prog = "hist"
+    THEN [prog |-> "hist", nnzmax0 |-> NnzMax0, npkmax0 |-> NpkMax0, chain |-> obj.chain, calls |-> hist]
     ELSE [prog |-> "pipe", ns |-> inp.ns, nf |-> inp.nf, f1 |-> FrameJson(F1), f2 |-> FrameJson(F2),
           nnzmax0 |-> NnzMax0, npkmax0 |-> NpkMax0, nnzmax |-> obj.nnzmax, npkmax |-> obj.npkmax,
           so |-> out.so,
